@@ -53,6 +53,7 @@ SPEC = dict(
     ],
     search_seeds=2,
     engine_timeout=900,
+    coqchk_timeout=420,  # Flocq/Interval/Coquelicot under BM25Rnd take more than 50 min to re-check: recorded as not completed
 )
 
 META = dict(
